@@ -31,9 +31,9 @@
      DataAfterCloseOnWire          a data frame was written after the Close frame            *)
 EXTENDS WsFrames, TraceBatch
 
-VARIABLES tid, l, phase, status, closed, ccall, late, r, frames, bad
+VARIABLES tid, l, phase, status, closed, ccall, late, cpos, epos, r, frames, bad
 
-tvars == <<tid, l, phase, status, closed, ccall, late, r, frames, bad>>
+tvars == <<tid, l, phase, status, closed, ccall, late, cpos, epos, r, frames, bad>>
 
 Sent(t) == Cfg(t).sent
 NSent(t) == Len(Cfg(t).sent)
@@ -49,12 +49,13 @@ TInit ==
     /\ l = 0 /\ phase = "events"
     /\ status = [i \in 1..NSent(tid) |-> "none"]
     /\ closed = FALSE /\ ccall = FALSE /\ late = {}
+    /\ cpos = [i \in 1..NSent(tid) |-> 0] /\ epos = [i \in 1..NSent(tid) |-> 0]   \* event index of call / end
     /\ r = Init0 /\ frames = <<>> /\ bad = ""
     /\ Verdict(tid, 0, "", <<>>)
 
 Stop(clause, info) ==
     /\ bad' = clause
-    /\ UNCHANGED <<tid, l, phase, status, closed, ccall, late, r, frames>>
+    /\ UNCHANGED <<tid, l, phase, status, closed, ccall, late, cpos, epos, r, frames>>
     /\ Verdict(tid, l, clause, info)
 
 (* ------------------------------------------------------------ phase 1: events -- *)
@@ -63,7 +64,7 @@ EventStep ==
     /\ IF l = NEvents(tid) /\ \E i \in 1..NSent(tid) : status[i] = "called" THEN Stop("CallNeverEnded", <<>>)
        ELSE IF l = NEvents(tid) THEN
           /\ phase' = IF Cfg(tid).wirefull THEN "wire" ELSE "final"
-          /\ UNCHANGED <<tid, l, status, closed, ccall, late, r, frames, bad>>
+          /\ UNCHANGED <<tid, l, status, closed, ccall, late, cpos, epos, r, frames, bad>>
           /\ Verdict(tid, l, "", <<>>)
        ELSE \E e \in {Events(tid)[l + 1]} :
           LET m == Sent(tid)[e.id]
@@ -78,6 +79,8 @@ EventStep ==
                   /\ closed' = (closed \/ (e.ev = "end" /\ m.op = 8))
                   /\ late' = IF e.ev = "call" /\ closed THEN late \cup {e.id} ELSE late
                   /\ ccall' = (ccall \/ (e.ev = "call" /\ m.op = 8))
+                  /\ cpos' = IF e.ev = "call" THEN [cpos EXCEPT ![e.id] = l + 1] ELSE cpos
+                  /\ epos' = IF e.ev = "end" THEN [epos EXCEPT ![e.id] = l + 1] ELSE epos
                   /\ l' = l + 1
                   /\ UNCHANGED <<tid, phase, r, frames, bad>>
                   /\ Verdict(tid, l + 1, "", <<>>)
@@ -95,7 +98,7 @@ WireStep ==
        IN IF ~CanStep(r, n) THEN
              IF r.pos # n \/ r.ph # "H" THEN Stop("WireTruncated", <<r.pos, n>>)
              ELSE /\ phase' = "final"
-                  /\ UNCHANGED <<tid, l, status, closed, ccall, late, r, frames, bad>>
+                  /\ UNCHANGED <<tid, l, status, closed, ccall, late, cpos, epos, r, frames, bad>>
                   /\ Verdict(tid, l, "", <<>>)
           ELSE \E st \in {Step(r, S, n, WireC, DummyInfl, FALSE)} :
              LET rr == st.r
@@ -109,7 +112,7 @@ WireStep ==
              IN IF clause # "" THEN Stop(clause, <<rr.hstart, rr.nframes>>)
                 ELSE /\ r' = rr
                      /\ frames' = IF st.out.k = "msg" THEN Append(frames, FrameRec(r, st.out)) ELSE frames
-                     /\ UNCHANGED <<tid, l, phase, status, closed, ccall, late, bad>>
+                     /\ UNCHANGED <<tid, l, phase, status, closed, ccall, late, cpos, epos, bad>>
                      /\ Verdict(tid, l, "", <<>>)
 
 (* ------------------------------------------------------------- phase 3: final --- *)
@@ -128,9 +131,19 @@ Assign(recv, k, ids) ==
              pick == IF cands = {} THEN 0 ELSE CHOOSE i \in pool : \A j \in pool : i <= j
          IN Assign(recv, k + 1, Append(ids, pick))
 
-AfterOverride(ids, k) ==       \* an override-compressed message was received before position k
+\* The named deviation (DESIGN section 5 item 10): the message at position k went wrong although every
+\* per-message-override send received before it had RETURNED before the send of any message that
+\* position k could be (sequential use).  An override frame that overtook a concurrent send is not it.
+AfterOverride(ids, k, cands) ==
+    LET ovs == {ids[j] : j \in {x \in 1..(k - 1) : ids[x] # 0 /\ Sent(tid)[ids[x]].ovr > 0}} IN
     /\ Cfg(tid).compress > 0 /\ ~Cfg(tid).notakeover
-    /\ \E j \in 1..(k - 1) : ids[j] # 0 /\ Sent(tid)[ids[j]].ovr > 0
+    /\ ovs # {}
+    /\ \A o \in ovs : \A c \in cands : epos[o] > 0 /\ cpos[c] > epos[o]
+
+\* sent messages (send_frame entered) not identified among the received ones that could be message x
+Unmatched(ids, x) ==
+    {i \in 1..NSent(tid) : /\ cpos[i] > 0 /\ \A j \in 1..Len(ids) : ids[j] # i
+                            /\ (x.t = 0 \/ (Sent(tid)[i].op = x.t /\ Sent(tid)[i].key.len = x.key.len))}
 
 RunClause2(run, ids) ==
     LET recv == run.recv
@@ -140,12 +153,12 @@ RunClause2(run, ids) ==
         S == Sent(tid)
     IN
     IF unknown # {} THEN
-        (IF AfterOverride(ids, firstUnknown) THEN "DecodeAfterOverrideTakeover"
+        (IF AfterOverride(ids, firstUnknown, Unmatched(ids, recv[firstUnknown])) THEN "DecodeAfterOverrideTakeover"
          ELSE IF \E i \in 1..NSent(tid) : S[i].op = recv[firstUnknown].t /\ KeyEq(S[i].key, recv[firstUnknown].key)
               THEN "Duplicate"
          ELSE IF \E i \in 1..NSent(tid) : S[i].op = recv[firstUnknown].t /\ S[i].key.len = recv[firstUnknown].key.len
               THEN "PayloadCorrupted" ELSE "UnknownMessage")
-    ELSE IF run.rerr # 0 THEN (IF AfterOverride(ids, n + 1) THEN "DecodeAfterOverrideTakeover" ELSE "ReaderError")
+    ELSE IF run.rerr # 0 THEN (IF AfterOverride(ids, n + 1, Unmatched(ids, [t |-> 0])) THEN "DecodeAfterOverrideTakeover" ELSE "ReaderError")
     ELSE IF \E i, j \in 1..n : i < j /\ S[ids[i]].sender = S[ids[j]].sender /\ S[ids[i]].seq >= S[ids[j]].seq
          THEN "PerSenderOrder"
     ELSE IF \E i \in 1..NSent(tid) : status[i] = "returned" /\ \A k \in 1..n : ids[k] # i THEN "Lost"
@@ -173,7 +186,7 @@ FinalStep ==
                      ELSE ""
        IN /\ bad' = clause
           /\ phase' = "done"
-          /\ UNCHANGED <<tid, l, status, closed, ccall, late, r, frames>>
+          /\ UNCHANGED <<tid, l, status, closed, ccall, late, cpos, epos, r, frames>>
           /\ Verdict(tid, l, clause,
                      IF bads # {} THEN <<runs[CHOOSE k \in bads : \A j \in bads : k <= j].seg>> ELSE <<>>)
 
